@@ -75,6 +75,17 @@ def catalogue(ctx, thorough):
             for pos in range(1, len(base) + 1):
                 ops = copy.deepcopy(base[:pos]) + [{"op": "fclose"}] * nclose + copy.deepcopy(base[pos:])
                 cases.append({"cfg": {"sb": 2, "rb": "", "style": 0, "tag": "C16-closed" }, "ops": ops})
+    # header-capacity point: a hard link needs a reference-count message in the target's header; with one
+    # attribute of the right size the header is too full for it and the link call must fail without a trace
+    for L in range(120, 175):
+        ops = [{"op": "mkds", "p": "/t", "dt": "i32", "dims": [2]}, {"op": "write", "p": "/t", "data": "seq"},
+               {"op": "attr", "p": "/t", "n": "big", "v": "s%d" % L}, {"op": "hlink", "p": "/alias", "t": "/t"},
+               {"op": "mkds", "p": "/after", "dt": "u8", "dims": [2], "sure": True}, {"op": "write", "p": "/after", "data": "seq", "sure": True},
+               {"op": "hlink", "p": "/alias2", "t": "/after", "sure": True}]
+        cases.append({"cfg": {"sb": [2, 0, 3][L % 3], "rb": "", "style": 0, "tag": "C16-hdrfull-hlink"}, "ops": ops})
+        ops = [{"op": "mkgroup", "p": "/g"}, {"op": "attr", "p": "/g", "n": "big", "v": "s%d" % (L + 40)},
+               {"op": "hlink", "p": "/galias", "t": "/g"}, {"op": "mkds", "p": "/g/m", "dt": "u8", "dims": [1]}]
+        cases.append({"cfg": {"sb": 2, "rb": "", "style": 0, "tag": "C16-hdrfull-hlink-group"}, "ops": ops})
     # capacity points: 33rd entry in a group, name heap full, header/index growth (not marked sure)
     for sb in (0, 2, 3):
         ops = [{"op": "mkgroup", "p": "/g"}]
